@@ -790,7 +790,12 @@ def run_c12_case(seed, case, stats, tmp):
                 stems.add(stem)
                 break
         k = rnd.random()
-        if i == 0 or k < 0.3:
+        if i > 0 and files and rnd.random() < 0.2:
+            # a second copy of an earlier file under another name: files of equal size (and content) are ordinary in a
+            # directory of logs, each must still get its own result and its own output
+            prev = rnd.choice(files)
+            data, role, fkind, passes = prev['data'], prev['role'], prev['kind'], prev['passes']
+        elif i == 0 or k < 0.3:
             src = makers[kind]()
             data, role, fkind, passes = src.data, 'good', kind, src.passes
         elif k < 0.42:
